@@ -143,6 +143,7 @@ func (m *Machine) doGo(it *Item, x *ssa.Go) {
 			m.spawned[key] = g
 		}
 		g.Spawn = m.C.Or(g.Spawn, guard)
+		m.raceSpawn(it.Gor, g)
 		ni := &Item{G: guard, Gor: g}
 		if h, isIntr := m.Intrinsics[fn.String()]; isIntr {
 			_ = h
@@ -525,12 +526,14 @@ func (m *Machine) execCand(cd *Cand) {
 	var items []*Item
 	switch cd.Kind {
 	case "rv":
+		m.raceRendezvous(cd.A.it.Gor, cd.B.it.Gor)
 		si := m.advance(cd.A, sel)
 		ri := m.advance(cd.B, sel)
 		m.completeSend(si, cd.A)
 		m.completeRecv(ri, cd.B, cd.A.val, c.True)
 		items = []*Item{si, ri}
 	case "bsend":
+		m.raceRelease(cd.A.it.Gor, cd.Obj)
 		si := m.advance(cd.A, sel)
 		o := cd.Obj
 		_, ln, _ := m.chanState(o)
@@ -548,6 +551,7 @@ func (m *Machine) execCand(cd *Cand) {
 		m.completeSend(si, cd.A)
 		items = []*Item{si}
 	case "brecv":
+		m.raceAcquire(cd.A.it.Gor, cd.Obj)
 		ri := m.advance(cd.A, sel)
 		o := cd.Obj
 		_, ln, _ := m.chanState(o)
@@ -559,6 +563,7 @@ func (m *Machine) execCand(cd *Cand) {
 		m.completeRecv(ri, cd.A, val, c.True)
 		items = []*Item{ri}
 	case "rclosed":
+		m.raceAcquire(cd.A.it.Gor, cd.Obj)
 		ri := m.advance(cd.A, sel)
 		m.completeRecv(ri, cd.A, m.ZeroValue(m.elemType(cd.Obj)), c.False)
 		items = []*Item{ri}
@@ -578,6 +583,7 @@ func (m *Machine) execCand(cd *Cand) {
 			}
 			closed := m.heap.Get(a.Obj, 0).(T)
 			m.Oblige("panic", "close of closed channel", c.And(g, closed), m.posOf(cd.A.it))
+			m.raceRelease(cd.A.it.Gor, a.Obj)
 			m.heap.Set(a.Obj, 0, c.Or(closed, g))
 		}
 		m.finishCallOp(ni, op)
@@ -585,19 +591,36 @@ func (m *Machine) execCand(cd *Cand) {
 	case "wgadd":
 		ni := m.advance(cd.A, sel)
 		op := cd.A.op
+		if m.race != nil {
+			m.race.off++
+			for _, a := range op.Wg.Alts {
+				m.raceRelease(cd.A.it.Gor, a.Obj)
+			}
+		}
 		cnt := m.Load(ni, op.Wg, types.Typ[types.Int]).(T)
 		nv := m.add(cnt, op.N)
 		m.Oblige("panic", "sync: negative WaitGroup counter", c.And(sel, m.slt(nv, m.IntC(0))), m.posOf(cd.A.it))
 		m.Store(ni, op.Wg, types.Typ[types.Int], nv)
+		if m.race != nil {
+			m.race.off--
+		}
 		m.finishCallOp(ni, op)
 		items = []*Item{ni}
 	case "wgwait", "yield":
+		if m.race != nil && cd.Kind == "wgwait" {
+			for _, a := range cd.A.op.Wg.Alts {
+				m.raceAcquire(cd.A.it.Gor, a.Obj)
+			}
+		}
 		ni := m.advance(cd.A, sel)
 		m.finishCallOp(ni, cd.A.op)
 		items = []*Item{ni}
 	case "cancel":
 		ni := m.advance(cd.A, sel)
 		op := cd.A.op
+		if m.race != nil {
+			m.race.cur = cd.A.it.Gor
+		}
 		for _, a := range op.Cancel.Alts {
 			g := c.And(sel, a.G)
 			if g.IsFalse() {
@@ -638,6 +661,9 @@ func (m *Machine) Run(fn *ssa.Function) (err error) {
 		}
 	}()
 	c := m.C
+	if m.RaceDetect {
+		m.raceInit()
+	}
 	main := m.newGor("main", c.True)
 	m.MainGor = main
 	m.step = 0
